@@ -748,3 +748,67 @@ func StatefulIsolation(h *vsched.H) {
 	}
 	h.Observe("equal to alone")
 }
+
+// ---------------------------------------------------------------- quota above another limit
+
+// Alphabet of QuotaOverFilters (base 5): REQ a, REQ b, REQ a with 2 filters, REQ b with 2 filters, CLOSE a.
+var C18OverNames = []string{"REQ a", "REQ b", "REQ a (2 filters)", "REQ b (2 filters)", "CLOSE a"}
+
+// QuotaOverFilters: the quota middleware stacked ABOVE MaxReqFilters(1): a REQ with two filters is
+// refused further inside with a CLOSED that travels back through the quota middleware, while the
+// downstream handler never sees that REQ. Whatever the quota middleware makes of such a CLOSED,
+// the first clause of the property stands: at every moment at most N distinct subscription ids
+// are open downstream. params: n, len, code (base 5).
+func QuotaOverFilters(h *vsched.H) {
+	n, L, code := h.Param("n", 1), h.Param("len", 1), h.Param("code", 0)
+	stub := &c18Stub{}
+	hd := mocrelay.NewMaxSubscriptionsMiddleware(n)(mocrelay.NewMaxReqFiltersMiddleware(1)(stub))
+	log := &c18Log{}
+	c := c18Conn(h, "c", hd, log)
+	var msgs []mocrelay.ClientMsg
+	var names []string
+	for i := 0; i < L; i++ {
+		d := code % 5
+		code /= 5
+		names = append(names, C18OverNames[d])
+		switch d {
+		case 0:
+			msgs = append(msgs, c18Req("a", i))
+		case 1:
+			msgs = append(msgs, c18Req("b", i))
+		case 2:
+			msgs = append(msgs, ReqMsg("a", &mocrelay.ReqFilter{}, &mocrelay.ReqFilter{}))
+		case 3:
+			msgs = append(msgs, ReqMsg("b", &mocrelay.ReqFilter{}, &mocrelay.ReqFilter{}))
+		default:
+			msgs = append(msgs, CloseMsg("a"))
+		}
+	}
+	go c18Read(c)
+	go c18Write(c, msgs)
+	h.WaitQuiescent()
+	detail := fmt.Sprintf("N=%d above MaxReqFilters(1); history [%s]; downstream received [%s]; client got [%s]", n, strings.Join(names, ", "), c18RecvString(log), c.GotString())
+	for _, s := range c.Sent {
+		if s.Ret == 0 {
+			h.Fail("C18/quota above another limit: client message not taken", detail)
+			return
+		}
+	}
+	open := map[string]bool{}
+	for _, m := range log.Recv {
+		switch m := m.(type) {
+		case *mocrelay.ClientReqMsg:
+			if len(m.ReqFilters) > 1 {
+				h.Fail("C18/quota above another limit: a REQ above the inner limit reached the downstream handler", detail)
+			}
+			open[m.SubscriptionID] = true
+		case *mocrelay.ClientCloseMsg:
+			delete(open, m.SubscriptionID)
+		}
+		if len(open) > n {
+			h.Fail("C18/quota: more than N distinct subscription ids open downstream", detail)
+			return
+		}
+	}
+	h.Observe(fmt.Sprintf("%d msgs downstream", len(log.Recv)))
+}
